@@ -154,6 +154,7 @@ type Options struct {
 	Pure         bool // with Layouts: exactly one delimiter mechanism (styp on every segment | top-level sidx | mfra | none)
 	Layouts      bool // C12: random index/delimiter layouts (top-level sidx, mfra, styp on some segments, up to 6x4)
 	SmallTimes   bool // decode times and durations small enough for 32-bit sidx arithmetic
+	LongRuns     bool // one or two fragments of 1023..3000 small samples, half of the tracks with all fields constant (truns without per-sample fields)
 	// Tracks, when non-empty, are used instead of drawing tracks (C19: fragments for an
 	// init built elsewhere; ids must be the 1..n that AddEmptyTrack assigns if Build's own init is used).
 	Tracks []TrackSpec
@@ -190,6 +191,10 @@ func Generate(r *runner.Rand, o Options) *History {
 		o.MaxSamples = 12
 	}
 	h := &History{Optimize: r.Bool(), SW: r.Bool()}
+	if o.LongRuns {
+		o.MaxTracks, o.MaxSegments, o.MaxFragments = 2, 1, 2
+		h.Optimize = !r.Chance(1, 4)
+	}
 	nt := 1 + r.Intn(o.MaxTracks)
 	if r.Chance(1, 3) {
 		nt = 1
@@ -379,6 +384,14 @@ func genPlan(r *runner.Rand, o Options) valuePlan {
 		return p
 	}
 	p.dur = pickU32(r, durSet)
+	if o.LongRuns {
+		p.sizeConst = r.Chance(3, 4)
+		p.size = pickU32(r, []uint32{8, 9, 16})
+		if r.Chance(2, 3) {
+			// nothing varies: after optimisation (or the trex trick) the trun carries no per-sample field
+			p.durConst, p.sizeConst, p.ctoMode, p.flagsMode = true, true, 0, r.PickInt(0, 0, 1)
+		}
+	}
 	if o.SmallTimes {
 		p.dur = pickU32(r, []uint32{0, 1, 2, 512, 1024, 3000, 90000, 0x00ffffff})
 	}
@@ -406,6 +419,8 @@ func (p valuePlan) sample(r *runner.Rand, o Options, i int) (size, dur, flags ui
 		switch {
 		case o.Tame:
 			size = uint32(r.Range(8, 200))
+		case o.LongRuns:
+			size = uint32(r.Range(8, 24))
 		case r.Chance(1, 20):
 			size = uint32(r.Intn(8)) // 0..7: too small for a whole stamp
 		case r.Chance(1, 12):
@@ -499,6 +514,12 @@ func genFragment(r *runner.Rand, o Options, h *History, st map[uint32]*trackStat
 		n = 1
 	case x == 2:
 		n = 2
+	}
+	if o.LongRuns {
+		n = r.PickInt(1023, 1024, 1025, 1026, 1500, 3000) * len(active)
+		if fs.Multi && r.Chance(1, 3) {
+			n = r.PickInt(1025, 2050)
+		}
 	}
 	if len(active) == 0 {
 		n = 0
